@@ -247,6 +247,13 @@ def lineOffset (d : DataSess) (k : Nat) : Option (Nat × Nat) :=
       else best
   go 0 none d.entries
 
+/-- `Option` order of two `last_time`s (`None < Some`): is the cache's last bucket newer than
+the last line left in the source? -/
+def cacheNewer : Option Nat → Option Nat → Bool
+  | some c, some t => decide (c > t)
+  | some _, none => true
+  | none, _ => false
+
 /-- `DownSampledData::open` + catch-up (after the fix of `repair::add_missing_data`) -/
 def cacheOpen (dir : Dir) (B : Nat) (src : DataSess) (cb : Option Bool) : Dir × R CacheSess :=
   let st := dir.cache B
@@ -263,10 +270,7 @@ def cacheOpen (dir : Dir) (B : Nat) (src : DataSess) (cb : Option Bool) : Dir ×
         -- repair::add_missing_data
         -- ahead by a whole bucket, or (after the fix) the last bucket reaches beyond the source and
         -- is newer than the last line left in the source (`Option` order: `None < Some`)
-        let newer : Bool := match d.lastTime, src.lastTime with
-          | some c, some t => decide (c > t)
-          | some _, none => true
-          | none, _ => false
+        let newer : Bool := cacheNewer d.lastTime src.lastTime
         let ahead : Bool := decide (clen * B ≥ slen + B) || (decide (clen * B > slen) && newer)
         let (st, d) : Store × DataSess :=
           if ahead then
